@@ -131,13 +131,10 @@ func parseValue(d *jx.Decoder) (pcommon.Value, bool, error) {
 		if err != nil {
 			return val, false, err
 		}
-		if num.IsInt() {
-			n, err := num.Int64()
-			if err != nil {
-				return val, false, err
-			}
+		if n, err := num.Int64(); num.IsInt() && err == nil {
 			val = pcommon.NewValueInt(n)
 		} else {
+			// Not an integer, or an integer that does not fit into int64.
 			n, err := num.Float64()
 			if err != nil {
 				return val, false, err
